@@ -4496,3 +4496,201 @@ let report_with_fuel fuel = function
 
 let report_steps t0 =
   report_with_fuel (add (mul (S (S O)) (tree_size t0)) (S (S O))) t0
+
+type ('vS, 'vr) tprovider = { p_cancel : (('vS, 'vr) event list -> bool);
+                              p_prio : (('vS, 'vr) event list -> pkg0 -> 'vS
+                                       -> z);
+                              p_choose : (('vS, 'vr) event list -> pkg0 ->
+                                         'vS -> 'vr choose_ans);
+                              p_deps : (('vS, 'vr) event list -> pkg0 -> 'vr
+                                       -> 'vS deps_ans) }
+
+(** val gen_prioritize :
+    ('a1, 'a2) tprovider -> (pkg0 * 'a1) list -> (pkg0 * (z * 'a1)) list ->
+    ('a1, 'a2) event list -> (pkg0 * (z * 'a1)) list * ('a1, 'a2) event list **)
+
+let rec gen_prioritize pg cands q hist =
+  match cands with
+  | [] -> (q, [])
+  | p0 :: r ->
+    let (p, s) = p0 in
+    let e = EvPrioritize (p, s, (pg.p_prio hist p s)) in
+    let (q', evs) =
+      gen_prioritize pg r (set p ((pg.p_prio hist p s), s) q)
+        (app hist (e :: []))
+    in
+    (q', (e :: evs))
+
+(** val res_out_g :
+    'a1 pick_info list -> nat -> 'a3 res -> ('a3 -> ('a1, 'a2) result * ('a1,
+    'a2) event list) -> ('a1, 'a2) state -> ('a1, 'a2) event list -> ('a1,
+    'a2) result * ('a1, 'a2) event list **)
+
+let res_out_g log cnt r k st hist =
+  match r with
+  | Good a -> k a
+  | Panic s -> (((((OPanic s), st), log), cnt), hist)
+
+(** val resolve_loop_g :
+    ('a1, 'a2) vSOps -> ('a2 -> 'a2 -> bool) -> ('a1, 'a2) tprovider -> nat
+    -> ('a1, 'a2) state -> pkg0 -> (pkg0 * 'a2) list -> pkg0 heap -> ('a1,
+    'a2) event list -> 'a1 pick_info list -> ('a1, 'a2) result * ('a1, 'a2)
+    event list **)
+
+let rec resolve_loop_g o veqb0 pg fuel st next added hp hist log =
+  match fuel with
+  | O -> ((((OOutOfFuel, st), log), (length hist)), hist)
+  | S fuel' ->
+    let ok = pg.p_cancel hist in
+    let hist1 = app hist ((EvCancel ok) :: []) in
+    if negb ok
+    then ((((OErrCancel, st), log), (length hist1)), hist1)
+    else (match unit_propagation o fuel st (next :: []) with
+          | Inl u ->
+            (match u with
+             | UPOk st1 ->
+               let (q, evs) =
+                 gen_prioritize pg (pick_candidates st1.ps) st1.ps.queue hist1
+               in
+               let hist2 = app hist1 evs in
+               let hp1 = heap_after_propagation st1.ps.queue hp in
+               let hp2 = heap_pushes hp1 evs in
+               let p1 = st1.ps in
+               let log1 =
+                 app log ((((undecided_positive p1), q),
+                   (length hist2)) :: [])
+               in
+               let with_queue = fun q' -> { next_gidx = p1.next_gidx; level =
+                 p1.level; assignments = p1.assignments; queue = q';
+                 changed = (length p1.assignments); backtracked =
+                 p1.backtracked }
+               in
+               (match queue_max q with
+                | Some mx ->
+                  (match heap_pop hp2 with
+                   | Some p0 ->
+                     let (p2, hp3) = p0 in
+                     let (p, _) = p2 in
+                     (match get p q with
+                      | Some p3 ->
+                        let (prio, _) = p3 in
+                        if negb (Z.eqb prio mx)
+                        then (((((OPickNotMax ((length hist2), p)), st1),
+                               log1), (length hist2)), hist2)
+                        else let st2 = upd_ps st1 (with_queue (remove p q)) in
+                             (match term_for st2.ps p with
+                              | Some ti ->
+                                (match ti with
+                                 | Pos cur_set ->
+                                   let ans = pg.p_choose hist2 p cur_set in
+                                   let hist3 =
+                                     app hist2 ((EvChoose (p, cur_set,
+                                       ans)) :: [])
+                                   in
+                                   (match ans with
+                                    | CSome v ->
+                                      if negb (t_contains o ti v)
+                                      then (((((OFailure
+                                             FIncompatibleVersion), st2),
+                                             log1), (length hist3)), hist3)
+                                      else if added_has veqb0 added p v
+                                           then res_out_g log1 (length hist3)
+                                                  (add_decision o st2.ps p v)
+                                                  (fun p' ->
+                                                  resolve_loop_g o veqb0 pg
+                                                    fuel' (upd_ps st2 p') p
+                                                    added hp3 hist3 log1) st2
+                                                  hist3
+                                           else let added' = (p, v) :: added
+                                                in
+                                                let dans = pg.p_deps hist3 p v
+                                                in
+                                                let hist4 =
+                                                  app hist3 ((EvDeps (p, v,
+                                                    dans)) :: [])
+                                                in
+                                                (match dans with
+                                                 | DAvail deps ->
+                                                   res_out_g log1
+                                                     (length hist4)
+                                                     (add_incompatibility_from_dependencies
+                                                       o st2 p v deps)
+                                                     (fun pat ->
+                                                     let (st3, range0) = pat
+                                                     in
+                                                     res_out_g log1
+                                                       (length hist4)
+                                                       (add_version o st3.ps
+                                                         p v range0 st3.store)
+                                                       (fun p' ->
+                                                       resolve_loop_g o veqb0
+                                                         pg fuel'
+                                                         (upd_ps st3 p') p
+                                                         added' hp3 hist4 log1)
+                                                       st3 hist4) st2 hist4
+                                                 | DUnavail m ->
+                                                   res_out_g log1
+                                                     (length hist4)
+                                                     (add_incompatibility o
+                                                       st2
+                                                       (custom_version o p v
+                                                         m)) (fun st3 ->
+                                                     resolve_loop_g o veqb0
+                                                       pg fuel' st3 p added'
+                                                       hp3 hist4 log1) st2
+                                                     hist4
+                                                 | DErr ->
+                                                   (((((OErrDeps (p, v)),
+                                                     st2), log1),
+                                                     (length hist4)), hist4))
+                                    | CNone ->
+                                      (match no_versions p ti with
+                                       | Some inc ->
+                                         res_out_g log1 (length hist3)
+                                           (add_incompatibility o st2 inc)
+                                           (fun st3 ->
+                                           resolve_loop_g o veqb0 pg fuel'
+                                             st3 p added hp3 hist3 log1) st2
+                                           hist3
+                                       | None ->
+                                         (((((OPanic PNoVersionsNegative),
+                                           st2), log1), (length hist3)),
+                                           hist3))
+                                    | CErr ->
+                                      ((((OErrChoose, st2), log1),
+                                        (length hist3)), hist3))
+                                 | Neg _ ->
+                                   (((((OPanic PUnwrapPositive), st2), log1),
+                                     (length hist2)), hist2))
+                              | None ->
+                                (((((OFailure FNoTerm), st2), log1),
+                                  (length hist2)), hist2))
+                      | None ->
+                        (((((OPickNotMax ((length hist2), p)), st1), log1),
+                          (length hist2)), hist2))
+                   | None ->
+                     (((((OMismatch ((length hist2), (Npos (XO (XI XH))))),
+                       st1), log1), (length hist2)), hist2))
+                | None ->
+                  ((res_out log1 (length hist2) (extract_solution p1)
+                     (fun sol -> ((((OSolution sol),
+                     (upd_ps st1 (with_queue q))), log1), (length hist2)))
+                     st1), hist2))
+             | UPConflict (st1, id) ->
+               (match build_derivation_tree st1.store id with
+                | Some t0 ->
+                  (((((ONoSolution t0), st1), log), (length hist1)), hist1)
+                | None ->
+                  (((((OPanic PTreeMissing), st1), log), (length hist1)),
+                    hist1)))
+          | Inr o0 ->
+            (match o0 with
+             | EFuel -> ((((OOutOfFuel, st), log), (length hist1)), hist1)
+             | EPanic s -> (((((OPanic s), st), log), (length hist1)), hist1)))
+
+(** val resolve_g :
+    ('a1, 'a2) vSOps -> ('a2 -> 'a2 -> bool) -> ('a1, 'a2) tprovider -> nat
+    -> pkg0 -> 'a2 -> ('a1, 'a2) result * ('a1, 'a2) event list **)
+
+let resolve_g o veqb0 pg fuel r v =
+  resolve_loop_g o veqb0 pg fuel (state_init o r v) r [] [] [] []
